@@ -145,6 +145,17 @@ def r2(db, rep):
                           "stay in the interval set" % newv)
 
 
+def _through_local(h, e):
+    """a plain single-assignment local stands for its initialiser (one level)"""
+    e0 = facts.strip_all(e)
+    while e0["k"] in ("CXXConstructExpr", "MaterializeTemporaryExpr", "CXXBindTemporaryExpr") and len(e0.get("c", [])) == 1:
+        e0 = facts.strip_all(e0["c"][0])
+    sa = facts.single_assign(h)
+    if e0["k"] == "DeclRefExpr" and e0.get("var") in sa and not e0.get("parm"):
+        return sa[e0["var"]]
+    return e
+
+
 def erase_loop(h, a_txt, b_txt):
     """condition node of `AckedRange r(a, b); while (r.has_next()) acked_intervals_.erase(r.next());` in h, or None"""
     for d in facts.fn_nodes(h):
@@ -155,17 +166,22 @@ def erase_loop(h, a_txt, b_txt):
         if args != [a_txt, b_txt]:
             continue
         for w in facts.fn_nodes(h):
-            if w["k"] != "WhileStmt":
+            if w["k"] not in ("WhileStmt", "ForStmt"):
                 continue
             real = [x for x in w["c"] if x is not None]
-            c, body = real[0], real[-1]
-            if not any(x["k"] == "CXXMemberCallExpr" and x.get("cname") == "has_next" and
-                       any(y["k"] == "DeclRefExpr" and y.get("var") == d["var"] for y in facts.walk(x)) for x in facts.walk(c)):
+            body = real[-1]
+            cs = [x for x in real[:-1] if x["k"] not in ("DeclStmt",) and any(
+                y["k"] == "CXXMemberCallExpr" and y.get("cname") == "has_next" and
+                any(z["k"] == "DeclRefExpr" and z.get("var") == d["var"] for z in facts.walk(y)) for y in facts.walk(x))]
+            if not cs:
                 continue
+            c = cs[0]
             for e in facts.walk(body):
+                # (the piece may be kept in a local first)
                 if e["k"] == "CXXMemberCallExpr" and e.get("cname") == "erase" and "acked_intervals_" in facts.expr_str(e["c"][0]) and \
                         any(x["k"] == "CXXMemberCallExpr" and x.get("cname") == "next" and
-                            any(y["k"] == "DeclRefExpr" and y.get("var") == d["var"] for y in facts.walk(x)) for x in facts.walk(e)):
+                            any(y["k"] == "DeclRefExpr" and y.get("var") == d["var"] for y in facts.walk(x))
+                            for a_ in e["c"][1:] for x in facts.walk(_through_local(h, a_))):
                     return c
     return None
 
